@@ -857,6 +857,10 @@ def run_cmp_orientation(P, rep, rule="R-ORIENT"):
         if sr == {2} and sa == {1} and not rev:
             rep.viol(rule, site, P.where(fn, t["line"]),
                      "this arm orders (rhs-derived).cmp(lhs-derived) without reversing the result: `a < b` and `b > a` disagree for these kinds")
+        elif sr >= {1, 2} and sa >= {1, 2}:
+            rep.viol(rule, site, P.where(fn, t["line"]),
+                     "both operands of this ordering can come from either side (an or-pattern such as `(A(x), B(y)) | (B(y), A(x))` feeds one "
+                     "`x.cmp(y)`): for one of the two alternatives the comparison runs rhs-against-lhs without being reversed")
         elif sr and sa and sr == sa and len(sr) == 1:
             rep.viol(rule, site, P.where(fn, t["line"]), "this arm compares one operand with itself (both sides derive from parameter %d)" % list(sr)[0])
         elif not sr or not sa:
